@@ -14,6 +14,11 @@ var checks = map[string]checkSpec{
 		Quick:     45 * time.Second, Thorough: 12 * time.Minute, Level: "exploration",
 		Rule: "Seeded runs of a partition-bound Reader against a simulated partition whose physical layout is generated (formats 0/1/2, every codec, v1 wrappers with relative/absolute inner offsets, compaction holes, missing tails, retained empty batches, responses cut at the byte limit), with appends, retention, SetOffset in all modes, leader moves and network/broker faults; every delivered message is compared with the stored log and the expected position.",
 	},
+	"C03": {
+		Scenarios: []scnSpec{{Name: "group", Share: 1}},
+		Quick:     50 * time.Second, Thorough: 15 * time.Minute, Level: "exploration",
+		Rule: "Seeded histories of 1-4 group Readers (FetchMessage+CommitMessages and ReadMessage users, sync and interval commits) against the simulated coordinator: members joining late, closing, crashing (black-holed until evicted), coordinator moves, error codes / cuts / slow answers on every group API, appends during reading; commits, hand-overs and resume points are checked against the coordinator's journal (R1-R5) and every leader assignment against the C14 invariants.",
+	},
 	"C07": {
 		Scenarios: []scnSpec{{Name: "writer", Params: "focus=order", Share: 1}},
 		Quick:     35 * time.Second, Thorough: 10 * time.Minute, Level: "exploration",
